@@ -6,6 +6,12 @@ FMT = ("alloc::fmt::format", "stubs::format_stub")
 BASES = [2, 3, 10, 16, 255, 256, 10000, 2 ** 32, 10 ** 19, 2 ** 63, 2 ** 64 - 1]
 
 
+# digit-iterator instances that gave no result within 2400 s in the thorough validation run (many digits of a
+# u128-by-constant division each): not registered
+DIGITS_DROPPED = {(64, 10), (64, 255), (64, 10000), (65, 10), (65, 255), (65, 10000), (128, 255), (128, 10000),
+                  (128, 10 ** 19), (128, 2 ** 64 - 1)}
+
+
 def ndigits(bits, base):
     return 0 if bits == 0 else int(math.floor(bits / math.log2(base))) + 1
 
@@ -34,6 +40,8 @@ def harnesses():
             nd = ndigits(b, base)
             if nd > 20:
                 continue
+            if (b, base) in DIGITS_DROPPED:
+                continue
             quick = (b, base) in ((8, 2), (8, 10), (16, 10), (16, 16), (64, 2 ** 32), (64, 10 ** 19), (65, 2 ** 63),
                                   (65, 2 ** 64 - 1))
             out.append(H("c09_digits_%d_b%d" % (b, base), "C09", "c09::digits::<%d,%d,%d,%d>" % (b, l, base, nd),
@@ -41,6 +49,8 @@ def harnesses():
                          domain="FULL value, base %d (at most %d digits)" % (base, nd), free_bits=b,
                          fns=["to_base_le", "to_base_be"], role="c09::digits"))
         for base in [2, 10, 2 ** 32, 2 ** 64 - 1]:
+            if (b, base) == (128, 2 ** 64 - 1):
+                continue   # no result in 2400 s (thorough validation run)
             nd = 3
             quick = (b, base) in ((8, 10), (8, 2 ** 32), (64, 2 ** 32), (65, 2 ** 64 - 1), (65, 10))   # incl. base >= 2^BITS
             out.append(H("c09_from_digits_%d_b%d" % (b, base), "C09",
